@@ -66,8 +66,8 @@ func C17(run *report.Run) {
 			methodSets = append(methodSets, l)
 		}
 	}
-	hdrVariants := []string{"none", "op", "pathitem", "two-casings", "two-distinct", "ref"}
-	secVariants := []string{"none", "bearer-global", "apikey-op", "both", "bearer-op-override", "alternatives-later"}
+	hdrVariants := []string{"none", "op", "pathitem", "two-casings", "two-distinct", "ref", "three-pathitem+per-op", "credential-header-declared"}
+	secVariants := []string{"none", "bearer-global", "apikey-op", "both", "bearer-op-override", "alternatives-later", "two-bearer-schemes"}
 	second := []string{"/q", "/a/{x}", "/a/{x}/c"}
 	var states []BState
 	for _, ms := range methodSets {
@@ -83,6 +83,18 @@ func C17(run *report.Run) {
 										continue
 									}
 									if !cors && len(ms) != 2 {
+										continue
+									}
+									// the later-added variants: against a reduced set of the other dimension
+									newH := hv == "three-pathitem+per-op" || hv == "credential-header-declared"
+									newS := sv == "two-bearer-schemes"
+									if newH && sv != "none" && sv != "bearer-global" && sv != "two-bearer-schemes" {
+										continue
+									}
+									if newS && !newH && hv != "none" && hv != "op" {
+										continue
+									}
+									if (newH || newS) && sp2 == "/a/{x}/c" {
 										continue
 									}
 								}
@@ -114,6 +126,14 @@ func C17(run *report.Run) {
 										if i == 0 {
 											op.Params = []*spec.Param{{Ref: "HP"}}
 										}
+									case "three-pathitem+per-op":
+										// every operation adds a header of its own to three inherited ones
+										op.Params = []*spec.Param{{Name: fmt.Sprintf("X-Op-%d", i), In: "header", Schema: spec.T("string")}}
+									case "credential-header-declared":
+										// the header a security scheme reads is also documented as an ordinary header parameter
+										if i == 0 {
+											op.Params = []*spec.Param{{Name: "Authorization", In: "header", Schema: spec.T("string")}, {Name: "X-Key", In: "header", Schema: spec.T("string")}}
+										}
 									}
 									switch sv {
 									case "apikey-op", "both":
@@ -129,11 +149,19 @@ func C17(run *report.Run) {
 										if i == len(ms)-1 && i > 0 {
 											op.Security = &[]spec.SecReq{{"b"}, {"k"}}
 										}
+									case "two-bearer-schemes":
+										// two different schemes that read the same header: the first operation uses one, the others the other
+										if i == 0 {
+											op.Security = &[]spec.SecReq{{"b2"}}
+										}
 									}
 									pi.Ops = append(pi.Ops, op)
 								}
 								if hv == "pathitem" {
 									pi.Params = []*spec.Param{{Name: "x-req-id", In: "header", Schema: spec.T("string")}}
+								}
+								if hv == "three-pathitem+per-op" {
+									pi.Params = []*spec.Param{{Name: "X-P1", In: "header", Schema: spec.T("string")}, {Name: "X-P2", In: "header", Schema: spec.T("string")}, {Name: "X-P3", In: "header", Schema: spec.T("string")}}
 								}
 								if hv == "ref" {
 									s.Comp.Params = []spec.NamedParam{{Name: "HP", Param: &spec.Param{Name: "X-Ref-Hdr", In: "header", Schema: spec.T("string")}}}
@@ -147,6 +175,9 @@ func C17(run *report.Run) {
 									s.Security = &[]spec.SecReq{{"b"}}
 								case "apikey-op":
 									s.Comp.Security = []spec.SecScheme{{Key: "k", Type: "apiKey", In: "header", Name: "x-key"}}
+								case "two-bearer-schemes":
+									s.Comp.Security = []spec.SecScheme{{Key: "b", Type: "http", Scheme: "bearer"}, {Key: "b2", Type: "http", Scheme: "bearer"}}
+									s.Security = &[]spec.SecReq{{"b"}}
 								case "both", "alternatives-later":
 									s.Comp.Security = []spec.SecScheme{{Key: "b", Type: "http", Scheme: "bearer"}, {Key: "k", Type: "apiKey", In: "header", Name: "x-key"}}
 									s.Security = &[]spec.SecReq{{"b"}}
